@@ -279,11 +279,14 @@ func (x *Exec) specField(s *State, base *Value, name string) *Value {
 	if base.K == KSlice {
 		// projection of a slice of structs onto a field: the slice of that field's values (same length)
 		el := sliceElem(base)
+		if el != nil && el.K == KOpt && el.Inl != nil {
+			el = el.Inl // slice of pointers to structs kept inline
+		}
 		if el != nil && el.K == KStruct {
 			if f := el.field(name); f != nil {
 				var ft types.Type
 				if sl, ok := base.Typ.Underlying().(*types.Slice); ok {
-					if st, ok := sl.Elem().Underlying().(*types.Struct); ok {
+					if st, ok := derefStruct(sl.Elem()); ok {
 						for i := 0; i < st.NumFields(); i++ {
 							if st.Field(i).Name() == name {
 								ft = types.NewSlice(st.Field(i).Type())
